@@ -32,7 +32,9 @@ def gen(tier, rng, scale):
         mods = _env.modules
     except K.TieBroken:
         mods = [{"debugName": "example-linux", "breakpadId": "BE4E976C325246EE9D6B7847A670B2A90", "offsets": [4448, 4460], "kind": "fixture"}]
-    unknown = [("nope.so", "00000000000000000000000000000000A"), ("bad-id.so", "xyz"), ("example-linux", "BE4E976C325246EE9D6B7847A670B2A91")]
+    unknown = [("nope.so", "00000000000000000000000000000000A"), ("bad-id.so", "xyz"), ("example-linux", "BE4E976C325246EE9D6B7847A670B2A91"),
+               # empty strings are strings too: a module with no name, with no id, with neither
+               ("", "44E4EC8C2F41492B9369D6B9A059577C2"), ("noid.so", ""), ("", ""), (" ", "44E4EC8C2F41492B9369D6B9A059577C2")]
     cases = []
     for ci in range((220 if quick else 4000) * scale):
         njobs = rng.choice([1, 1, 2, 2, 3, 4])
